@@ -862,6 +862,11 @@ func makeDataConditionFilter(dataSources []func(s *stream) ([][2]int, [2][]byte,
 								if p.variables == nil {
 									p.variables = make(map[string]string)
 								}
+								if res[i] < 0 {
+									// the group did not take part in the match
+									p.variables[varName] = ""
+									continue
+								}
 								p.variables[varName] = string(buffers[dir][p.streamOffset[dir]:][res[i]:res[i+1]])
 							}
 
